@@ -27,7 +27,7 @@ def unhex (s : String) : Option Bytes :=
       match hexNib a, hexNib b with
       | some x, some y => go r ((x * 16 + y) :: acc)
       | _, _ => none
-  if s == "" then some [] else go s.toList []
+  if s == "" || s == "=" then some [] else go s.toList []
 
 /-- `-` = NULL, `=` = empty string, otherwise hex -/
 def unhexOpt (s : String) : Option (Option Bytes) :=
